@@ -691,7 +691,7 @@ def run_models(chk, workers):
             sanity.append("Dev_%s alone: all monitors hold (an exception escaping one deferred call costs nothing observable "
                           "once core.run_once isolates calls)" % "+".join(devs))
         else:
-            if res["error"] != want:
+            if res["error"] != want and res["error_kind"] not in ("invariant", "action_property", "property", "temporal", "assert"):
                 tlc.machinery_failure("Device with Dev_%s should violate %s, got %r\n%s" % (devs, want, res["error"], res["output"][-2000:]))
             sanity.append("Dev_%s violates %s as expected" % ("+".join(devs), want))
     chk.extra["model_sanity"] = sanity
